@@ -74,13 +74,17 @@ def run(tier):
     WR = p.sites_with("WRITE", direct=True)
     PUB = [s for s in C if identity_param(w, s["t"]["args"][0]) == p.Y] + \
           [s for s in RN if len(s["t"]["args"]) > 1 and identity_param(w, s["t"]["args"][1]) == p.Y]
+    helper = p.pub is not w
+    if helper:
+        # creation / writes / rename live in a helper: its call site is the publication site of the writer,
+        # the write obligations are discharged inside the helper (parameters mapped)
+        PUB = [p.pub_call]
+        rep.analysed["publisher_helper"] = p.pub.path
     rep.analysed.update({"REMOVE_sites": len(R), "GEN_sites": len(G), "CREATE_sites": len(C),
                          "RENAME_sites": len(RN), "WRITE_sites": len(WR), "PUBLISH_sites": len(PUB)})
     rep.floor("remove-old-output sites", len(R), 1)
     rep.floor("generation sites", len(G), 2)
     rep.floor("publication sites (create/rename at the output path)", len(PUB), 1)
-    rep.floor("direct file writes", len(WR), 3)
-
     # ---------------- O3: order
     for g in G:
         ok = any(w.dominates(r["block"], g["block"]) and r["block"] != g["block"] for r in R)
@@ -113,6 +117,15 @@ def run(tier):
 
     # writes: receiver from a CREATE site, data classes
     gate_info = analyse_gate(rep, p)
+    gen_callees = {g["callee"] for g in G}
+    wfn, WX = w, p.X            # the function holding the writes, its grammar-path parameter
+    if helper:
+        wfn, WX = p.pub, p.pubX
+        C = p.psites("CREATE")
+        WR = p.psites("WRITE")
+        rel = wfn.relfile()
+    w_outer, w = w, wfn
+    rep.floor("direct file writes", len(WR), 3)
     data = []
     for s in WR:
         t = s["t"]
@@ -122,11 +135,11 @@ def run(tier):
         consts = {json.loads(d[1]).get("str") for d in dat if d[0] == "const"} - {None}
         calls = {(d[1], d[2]) for d in dat if d[0] == "call"}
         data.append({"site": s, "recv": recv_sites, "consts": consts, "calls": calls})
-        rep.ob("O3.write-targets-created-file", p.site_desc(s), len(recv_sites) == 1,
+        rep.ob("O3.write-targets-created-file", p.pdesc(s), len(recv_sites) == 1,
                "file write whose receiver is not the file created in this function",
                key="O3:write-foreign-file:%s" % s["callee"], file=rel, line=s["ln"], fn=w.path)
         for cb in recv_sites:
-            rep.ob("O3.create-before-write", p.site_desc(s), w.dominates(cb, s["block"]), "",
+            rep.ob("O3.create-before-write", p.pdesc(s), w.dominates(cb, s["block"]), "",
                    key="O3:write-before-create", file=rel, line=s["ln"], fn=w.path)
     rep.ob("O3.single-output-file", w.path, len({b for d in data for b in d["recv"]}) == 1,
            "writes go to more than one created file", key="O3:several-output-files", file=rel,
@@ -135,8 +148,15 @@ def run(tier):
         V, H = gate_info["version_const"], gate_info["hash_fn"]
         wv = [d for d in data if V in d["consts"]]
         wh = [d for d in data if any(c == H for c, _ in d["calls"])]
-        gen_callees = {g["callee"] for g in G}
-        wb = [d for d in data if any(c in gen_callees for c, _ in d["calls"])]
+        if helper:
+            # the body is the helper's buffer parameter, which the writer binds to the generator's Ok payload
+            wb = []
+            for d in data:
+                dat = origins(w, d["site"]["t"]["args"][1], through_agg=True, facts=f) if len(d["site"]["t"]["args"]) > 1 else set()
+                if p.pubBuf is not None and any(x[0] == "arg" and x[1] == p.pubBuf for x in dat):
+                    wb.append(d)
+        else:
+            wb = [d for d in data if any(c in gen_callees for c, _ in d["calls"])]
         rep.ob("O4.same-version-marker", w.path, len(wv) == 1,
                "the writer does not write the version marker constant the gate compares against (%r)" % V,
                key="O4:version-marker-mismatch", file=rel, line=w.line, fn=w.path)
@@ -158,10 +178,12 @@ def run(tier):
                    key="O3:extra-writes", file=rel, line=w.line, fn=w.path)
             # hash of the grammar parameter, in the writer
             hs = [s for bi, t in w.calls() if callee_of(t) == H for s in [t]]
-            okx = all(identity_param(w, t["args"][0]) == p.X for t in hs) and bool(hs)
+            okx = all(identity_param(w, t["args"][0]) == WX for t in hs) and bool(hs)
             rep.ob("O4.hash-of-grammar-param(writer)", w.path, okx,
                    "the hash written to the header is not computed from the grammar path parameter",
                    key="O4:hash-wrong-file:writer", file=rel, line=w.line, fn=w.path)
+        w = w_outer
+        rel = w.relfile()
         # generation input derives from the grammar parameter X
         ok = False
         for g in G:
@@ -172,6 +194,8 @@ def run(tier):
         rep.ob("O4.generation-reads-grammar-param", w.path, ok,
                "no generation call takes input derived from the grammar path parameter",
                key="O4:gen-wrong-input", file=rel, line=w.line, fn=w.path)
+    w = w_outer
+    rel = w.relfile()
     # ---------------- O6: a needed rebuild is not conditional on the other gate
     pub_blocks = {s["block"] for s in PUB}
     r_noforce = w.reachable([0], removed_edges=set(force))
